@@ -323,6 +323,26 @@ func (c *Ctx) tlKindTable() {
 		}
 		c.check(okv && n == 1, R, "tl.decodeVector reads exactly the announced number of elements", f.Pos(), "loop bound = the decoded 32-bit count", "tl.decodeVector's element loop is bounded by "+desc+", not by the element count read from the wire: longer vectors are silently truncated and the rest of the stream is parsed from the wrong offset")
 	}
+	if f := c.mustFn(R, "tl", "decodeVector"); f != nil {
+		// the result holds one element per decoded item: built from an empty slice by one Append per
+		// iteration (a slice pre-sized in chunks keeps zero-valued padding unless it is cut back to the count)
+		nApp, nAppSlice, okLen0 := 0, 0, true
+		for _, ci := range callsIn(f) {
+			switch callQName(ci.Common()) {
+			case "reflect.Append":
+				if inLoop(ci.(*ssa.Call).Block()) {
+					nApp++
+				}
+			case "reflect.AppendSlice":
+				nAppSlice++
+			case "reflect.MakeSlice":
+				if k, ok := constInt(ci.Common().Args[1]); !ok || k != 0 {
+					okLen0 = false
+				}
+			}
+		}
+		c.check(nApp == 1 && nAppSlice == 0 && okLen0, R, "tl.decodeVector yields exactly the decoded elements", f.Pos(), "MakeSlice(len 0) + one reflect.Append per item", fmt.Sprintf("tl.decodeVector no longer builds the result by one Append per decoded item from an empty slice (Append in loop: %d, AppendSlice: %d, initial length 0: %v): the decoded vector can be longer than the announced count (zero-valued padding), and re-encoding it gives different bytes", nApp, nAppSlice, okLen0))
+	}
 	if f := c.mustFn(R, "tl", "encodeVector"); f != nil {
 		okv := false
 		for _, cl := range callsTo(f, "encoding/binary.littleEndian.PutUint32") {
